@@ -73,6 +73,11 @@ def _events(args):
     for (blocks, st, cacb, f0, win) in items:
         flush()
         R = "".join(rnd.choice("ACGT") for _ in range(G))
+        if rnd.random() < 0.35:
+            # a soft-masked chromosome: lower-case stretches (repeats) are part of the sequence text
+            a = rnd.randrange(0, G)
+            b = rnd.randrange(a, G + 1)
+            R = R[:a] + R[a:b].lower() + R[b:]
         cds = cds_blocks(blocks, st, *cacb) if cacb else None
         frames = list(_consistent_frames(cds, st, f0)) if cds else []
         ws, we = win
@@ -81,7 +86,7 @@ def _events(args):
         minus_chunk = rnd.random() < 0.25
         pending[1] = minus_chunk
         if minus_chunk:
-            comp = {"A": "T", "C": "G", "G": "C", "T": "A"}
+            comp = {"A": "T", "C": "G", "G": "C", "T": "A", "a": "t", "c": "g", "g": "c", "t": "a"}
             chunk = seq_chunk_to_parent("".join(comp[c] for c in reversed(R[ws:we])), "chr", ws, we, strand=Strand.MINUS)
         else:
             chunk = seq_chunk_to_parent(R[ws:we], "chr", ws, we)
